@@ -302,6 +302,85 @@ func refLike(t types.Type) bool {
 	return false
 }
 
+// sharedFuncValue: a function value read from a package-level variable is a reference to a closure, which may own
+// mutable captured state shared by every runner that calls it - unless every function the package initialiser puts
+// into that variable is capture-free (a plain function or a literal without free variables), stored directly by the
+// initialiser itself (the case of the per-kind converter table).
+func sharedFuncValue(t types.Type, g *ssa.Global) bool {
+	if g == nil {
+		return false
+	}
+	if _, ok := t.Underlying().(*types.Signature); !ok {
+		return false
+	}
+	return !captureFreeGlobal(g)
+}
+
+var captureFreeMemo = map[*ssa.Global]bool{}
+
+func captureFreeGlobal(g *ssa.Global) bool {
+	if v, ok := captureFreeMemo[g]; ok {
+		return v
+	}
+	res := false
+	defer func() { captureFreeMemo[g] = res }()
+	init := g.Pkg.Func("init")
+	if init == nil {
+		return false
+	}
+	plain := func(v ssa.Value) bool {
+		for {
+			switch x := v.(type) {
+			case *ssa.ChangeType:
+				v = x.X
+				continue
+			case *ssa.Function:
+				return len(x.FreeVars) == 0
+			}
+			return false
+		}
+	}
+	var stored ssa.Value
+	n := 0
+	for _, b := range init.Blocks {
+		for _, in := range b.Instrs {
+			if st, ok := in.(*ssa.Store); ok && st.Addr == ssa.Value(g) {
+				stored = st.Val
+				n++
+			}
+		}
+	}
+	if n != 1 {
+		return false
+	}
+	if plain(stored) {
+		res = true
+		return res
+	}
+	mk, ok := stored.(*ssa.MakeMap)
+	if !ok {
+		return false
+	}
+	// every use of the fresh map inside the initialiser: element stores of capture-free functions and the store to g
+	for _, r := range *mk.Referrers() {
+		switch u := r.(type) {
+		case *ssa.MapUpdate:
+			if u.Map != ssa.Value(mk) || !plain(u.Value) {
+				return false
+			}
+		case *ssa.Store:
+			if u.Addr != ssa.Value(g) {
+				return false
+			}
+		case *ssa.DebugRef:
+		default:
+			return false
+		}
+	}
+	res = true
+	return res
+}
+
 func sharedVerdicts(env *Env, cfg *EffectCfg, f *ssa.Function) []effectVerdict {
 	var out []effectVerdict
 	key := funcKey(f)
@@ -328,7 +407,7 @@ func sharedVerdicts(env *Env, cfg *EffectCfg, f *ssa.Function) []effectVerdict {
 			for _, in := range b.Instrs {
 				switch x := in.(type) {
 				case *ssa.UnOp:
-					if x.Op == token.MUL && refLike(x.Type()) {
+					if x.Op == token.MUL && (refLike(x.Type()) || sharedFuncValue(x.Type(), src(x.X))) {
 						mark(x, src(x.X))
 					}
 				case *ssa.FieldAddr:
@@ -340,13 +419,17 @@ func sharedVerdicts(env *Env, cfg *EffectCfg, f *ssa.Function) []effectVerdict {
 						mark(x, src(x.X))
 					}
 				case *ssa.Index:
-					if refLike(x.Type()) {
+					if refLike(x.Type()) || sharedFuncValue(x.Type(), src(x.X)) {
 						mark(x, src(x.X))
 					}
 				case *ssa.Lookup:
-					if refLike(x.Type()) {
+					if refLike(x.Type()) || sharedFuncValue(x.Type(), src(x.X)) {
 						mark(x, src(x.X))
 					}
+				case *ssa.Range:
+					mark(x, src(x.X))
+				case *ssa.Next:
+					mark(x, src(x.Iter))
 				case *ssa.Slice:
 					mark(x, src(x.X))
 				case *ssa.ChangeType:
@@ -366,7 +449,7 @@ func sharedVerdicts(env *Env, cfg *EffectCfg, f *ssa.Function) []effectVerdict {
 						mark(x, src(x.X))
 					}
 				case *ssa.Extract:
-					if refLike(x.Type()) {
+					if refLike(x.Type()) || sharedFuncValue(x.Type(), src(x.Tuple)) {
 						mark(x, src(x.Tuple))
 					}
 				case *ssa.Phi:
